@@ -2,7 +2,7 @@
 // (which indentation remains on which line, which tags fit, where every link binds) is computed by the specification;
 // this file renders the comment into a fixed program, compiles it and projects Commentable::comment().
 
-use crate::util::{hash_str, mismatch};
+use crate::util::{hash_str, mismatch, strs};
 use crate::{Family, Outcome};
 use serde_json::{json, Value};
 use slicec::ast::node::Node;
@@ -159,9 +159,17 @@ const POS_PROGRAM: &[(&str, &str, &str, &str)] = &[
 ];
 
 fn render_positions(pos: &str, comment: &[String]) -> (String, String) {
+    render_positions_kept(pos, comment, &[])
+}
+
+/// the same, with the well-formed comment 'Kept {@link S}.' on the elements listed in `kept`
+fn render_positions_kept(pos: &str, comment: &[String], kept: &[String]) -> (String, String) {
     let mut text = String::new();
     let mut id = String::new();
     for (p, sid, ind, line) in POS_PROGRAM {
+        if !sid.is_empty() && kept.iter().any(|k| k == sid) {
+            text.push_str(&format!("{ind}/// Kept {{@link S}}.\n"));
+        }
         if *p == pos && !pos.is_empty() {
             id = (*sid).to_owned();
             for c in comment {
@@ -643,7 +651,8 @@ impl DocComments {
                 let pos = case["pos"].as_str().unwrap_or("struct");
                 let form = case["form"].as_str().unwrap_or("");
                 let lines = vec![" Intro.".to_owned(), malformed_text(form).to_owned(), " More.".to_owned()];
-                let (text, id) = render_positions(pos, &lines);
+                let kept = strs(&case["kept"]);
+                let (text, id) = render_positions_kept(pos, &lines, &kept);
                 let rendered = json!({"files": [text]});
                 let key = hash_str(&rendered.to_string());
                 let c = compile(&[text]);
@@ -658,10 +667,34 @@ impl DocComments {
                         return Some(f);
                     }
                     match comment_of(&c.state.ast, &id) {
-                        Ok(None) => None,
-                        Ok(Some(_)) => Some(mismatch("the comment of a malformed doc comment", json!("absent"), json!("present"))),
-                        Err(e) => Some(json!({"kind": "harness", "what": e})),
+                        Ok(None) => {}
+                        Ok(Some(_)) => return Some(mismatch("the comment of a malformed doc comment", json!("absent"), json!("present"))),
+                        Err(e) => return Some(json!({"kind": "harness", "what": e})),
                     }
+                    // the well-formed comments of the neighbours survive: text, link and all
+                    for k in &kept {
+                        let got: Option<String> = match comment_of(&c.state.ast, k) {
+                            Ok(Some(cm)) => cm.overview.as_ref().map(|m| {
+                                m.value
+                                    .iter()
+                                    .map(|x| match x {
+                                        MessageComponent::Text(t) => t.clone(),
+                                        MessageComponent::Link(l) => match l.linked_entity() {
+                                            Ok(e) => format!("<{}>", e.parser_scoped_identifier()),
+                                            Err(i) => format!("<unresolved {}>", i.value),
+                                        },
+                                    })
+                                    .collect::<Vec<_>>()
+                                    .join("")
+                            }),
+                            Ok(None) => None,
+                            Err(e) => return Some(json!({"kind": "harness", "what": e})),
+                        };
+                        if got.as_deref() != Some("Kept <M::S>.\n") {
+                            return Some(mismatch(&format!("the well-formed comment of {k}, a neighbour of the malformed comment"), json!("Kept <M::S>.\n"), json!(got)));
+                        }
+                    }
+                    None
                 })();
                 Outcome { fail, nontrivial: true, key, rendered }
             }
